@@ -33,7 +33,6 @@ type malCase struct {
 // error or success are both accepted there (recorded), a panic is not.
 func (x *uctx) runMalformed() {
 	base := fx.ZRSA("rsa1024")
-	base.Precompute()
 	N0 := base.N
 	k0 := base.Size()
 	Ns := []malVal{
@@ -55,14 +54,17 @@ func (x *uctx) runMalformed() {
 	}
 	digest := det("mal-digest", 32)
 	msg16 := det("mal-msg", 16)
-	goodP1, err := zrsa.SignPKCS1v15(nil, base, crypto.SHA256, digest)
+	// base signatures come from the textbook reference, not from the code under test
+	ref := newKeyInfo("rsa1024", base, false).ref()
+	goodP1, err := ref.SignP1(crypto.SHA256, digest)
 	if err != nil {
 		x.c.Broken("cannot make base signature: %v", err)
 	}
-	goodPSS, err := zrsa.SignPSS(fx.NewRand("mal-pss"), base, crypto.SHA256, digest, nil)
+	goodPSS, err := ref.SignPSS(fx.NewRand("mal-pss"), crypto.SHA256, digest, 0)
 	if err != nil {
 		x.c.Broken("cannot make base PSS signature: %v", err)
 	}
+	bareEM, _ := emsaP1(crypto.SHA256, digest, k0) // "signature" for E=1
 	one := make([]byte, k0)
 	one[k0-1] = 1
 	pmul := i2osp(base.Primes[0], k0) // not invertible mod N
@@ -73,7 +75,7 @@ func (x *uctx) runMalformed() {
 		{"nil", nil}, {"empty", []byte{}}, {"one octet 00", []byte{0}}, {"one octet 01", []byte{1}},
 		{"k zero octets", make([]byte, k0)}, {"k octets value 1", one}, {"k octets = prime factor", pmul},
 		{"valid PKCS#1 v1.5 signature of the base key", goodP1}, {"valid PSS signature of the base key", goodPSS},
-		{"k+1 zero octets", make([]byte, k0+1)},
+		{"k+1 zero octets", make([]byte, k0+1)}, {"the bare encoded message EM (a forgery when E=1)", bareEM},
 	}
 	type opT struct {
 		name   string
